@@ -37,6 +37,8 @@ func genC15(cfg runCfg, e *emitter, rng *rand.Rand) {
 			guarded(e, "AddBlockSummary", func() {
 				cs.AddBlockSummary(append([]uint64{}, proof.Targets...), uint16(nAdd))
 			})
+			// the arguments of the call, for the mirror of AddBlockSummary + genTTLs (Model/TTL.v)
+			e.line("TTLB %s %d", us(proof.Targets), nAdd)
 			rf.apply(dels, adds)
 			totalAdded += nAdd
 			e.line("BLOCK %s %s", hs(dels), hs(adds))
@@ -62,6 +64,7 @@ func genC15(cfg runCfg, e *emitter, rng *rand.Rand) {
 			}
 			ttlStr = strings.Join(parts, "|")
 			e.line("TTLS gen %s", ttlStr)
+			e.line("TTLM gen %s", ttlStr)
 		})
 		for _, maxMem := range []int{1, 2, 3, 5, totalAdded, totalAdded + 5, 1000000} {
 			if maxMem < 1 {
